@@ -356,6 +356,14 @@ class C20(Prop):
                        "do u1a load,/c20/u1/i", "do m dest,u1i", "do m dest,u2a", "script /c20/u2/a load,/c20/u1/i",
                        "do m load,/c20/u1/i", "script /c20/u1/i seteuid,s:zed;load,/c20/bb/a", "do m dest,u1i", "do m dest,u2a",
                        "script /c20/u2/a -", "do m hb,load,/c20/u1/i", "pol co odd t:/c20/u1/i", "do m load,/c20/odd/v1"])
+        # the inherited file's create() makes the loader lose its euid: the restarted load_object of the inheriting file must refuse
+        mk("inherit-loader-loses-euid", ["script /c20/u2/a reload,u1a", "do m load,/c20/u1/a", "do u1a seteuid,s:u1", "do u1a load,/c20/u1/i",
+                                         "do u1a seteuid,s:u1", "do u1a load,/c20/u1/i"])
+        mk("inherit-parent-aborted", ["do m load,/c20/u1/a", "do u1a seteuid,s:u1", "pol cf u2 err", "do u1a load,/c20/u1/i",
+                                      "pol cf u2 s:u2", "do u1a load,/c20/u1/i", "do u1a load,/c20/u2/a"])
+        mk("inherit-parent-refused", ["do m load,/c20/u1/a", "do u1a seteuid,s:u1", "pol vo u2 i:0", "do u1a load,/c20/u1/i", "pol vo u2 err",
+                                      "do u1a load,/c20/u1/i", "pol vo u2 i:1", "do u1a load,/c20/u1/i", "pol vo u1 i:0", "do m dest,u1i",
+                                      "do u1a load,/c20/u1/i"])
         # ---- round 6: master::valid_object - asked about every new blueprint before creator_file; refusal destructs it again
         mk("valid-object", ["pol vo u1 i:0", "do m load,/c20/u1/a", "do m clone,c1,/c20/u1/a", "pol vo u1 i:1", "do m load,/c20/u1/a",
                             "do m clone,c1,/c20/u1/b", "pol vo u2 err", "do m load,/c20/u2/a", "do m load,/c20/u2/a", "pol vo u2 s:ok",
